@@ -82,7 +82,7 @@ def facts_for_repo(repo=REPO, want_harness=False, quiet=False):
             try:
                 now = time.time()
                 olds = sorted((os.path.join(fdir, d) for d in os.listdir(fdir) if not d.endswith('.tmp')), key=os.path.getmtime)
-                for d in olds[:-24]:
+                for d in olds[:-10]:
                     if now - os.path.getmtime(d) > 900:      # never touch anything a concurrent run may still be using
                         shutil.rmtree(d, ignore_errors=True)
             except OSError:
